@@ -26,6 +26,12 @@ CHECKS = {
   "run through the real evaluator; the result must equal the model's deletion. Held on the cases generated.",
   "Alias-free JSON-model documents; deleting the root is not generated; the deriving functions are computed by the C01 reference interpreter.",
   "DESIGN.md §5 C03"),
+ "C15": ("exploration",
+  "law monitor: permutation, stability, idempotence, antisymmetry, transitivity and input-order independence observed on real sort/compare executions, plus agreement with a reference preorder",
+  "Pools mixing null/bool/ints (64-bit extremes, hex/octal)/floats/number-like strings are sorted, pairwise sorted and compared through the real evaluator; "
+  "every law is decided on the observed outputs, and order within a class (and null < bool < numbers < strings) against ref.Cmp. Held on the pools generated.",
+  "NaN not generated; number-vs-string order is asserted as observed on the pinned tree (the property leaves it open).",
+  "DESIGN.md §5 C15"),
  "C17": ("exploration",
   "real-consumer monitor: yq's @sh / -o=shell text is executed by dash and bash (strace execve watch + canary) and parsed by an independent POSIX word parser",
   "Each generated hostile string / document goes through the real encoder (library and binary); the shells must see exactly one word / exactly the "
